@@ -118,7 +118,7 @@ def generate(rng, cfg: Dict) -> Dict:
             ops.append(["render", c.chance(0.7)])
         else:
             ops.append(["recheck"])
-    return {"property": "C17", "machine": "diagram_sim", "symbol_family": symbol_family, "decoy": two_modules and c.chance(0.6),
+    return {"property": "C17", "machine": "diagram_sim", "symbol_family": symbol_family, "decoy": two_modules and c.chance(0.6), "future_annotations": c.chance(0.3),
             "classes": classes, "in_diagram": in_diagram, "order1": order1, "order2": order2, "ops": ops}
 
 
@@ -162,7 +162,8 @@ def default_of(f: Dict) -> str:
 
 
 def source_of(scenario: Dict, module: str) -> str:
-    lines = ["from dataclasses import dataclass, field", "from typing import Optional, List, Set, Type", "import enum"]
+    lines = ["from __future__ import annotations"] if scenario.get("future_annotations") else []
+    lines += ["from dataclasses import dataclass, field", "from typing import Optional, List, Set, Type", "import enum"]
     if scenario.get("symbol_family"):
         lines.append("from krrood.entity_query_language.predicate import Symbol")
     lines += ["", "class Color(enum.Enum):", "    RED = 1", "    BLUE = 2", ""]
@@ -191,13 +192,14 @@ def make_world(scenario: Dict) -> Dict[str, type]:
         src = ["from dataclasses import dataclass", ""]
         for cl in scenario["classes"]:
             src += ["@dataclass", f"class {cl['name']}:", "    decoy: int = 0", ""]
-        exec("\n".join(src), decoy.__dict__)
+        exec(compile("\n".join(src), "simd_a_decoy", "exec", dont_inherit=True), decoy.__dict__)
     for m in ("a", "b"):
         if not any(cl["module"] == m for cl in scenario["classes"]):
             continue
         mod = types.ModuleType(f"simd_fam_{m}")
         sys.modules[mod.__name__] = mod
-        exec(source_of(scenario, m), mod.__dict__)
+        # dont_inherit: this file postpones the evaluation of its annotations, the generated modules must not
+        exec(compile(source_of(scenario, m), mod.__name__, "exec", dont_inherit=True), mod.__dict__)
         mods[m] = mod
     return {cl["name"]: getattr(mods[cl["module"]], cl["name"]) for cl in scenario["classes"]}
 
